@@ -284,6 +284,60 @@ def check(ctx):
     rules.append(r2)
     rules.append(r3)
 
+    # ---------------------------------------------------------------- D4: the saved record is comparable with the one the next run computes
+    from rulelib import is_cache_new, arg_by_type, ARG_TYPES
+    r4 = Rule("C14-D4-comparable-record", "D4",
+              "in every function that consults the cache and later saves a record: the record is built by the same GenerationCache constructor the check uses "
+              "internally, from the same commands / structs / events / config values",
+              "a record built by another constructor (or without the events) never equals the digest the check computes: every unchanged re-run regenerates")
+    n_pairs = 0
+    for fid in sorted(reach):
+        f = P.fns[fid]
+        if fid.startswith("tauri_typegen::build::generation_cache::"):
+            continue
+        checks = [c for c in f.calls if is_cache_check(c) and c.bb in f.reach_blocks]
+        news = [c for c in f.calls if is_cache_new(c) and c.bb in f.reach_blocks]
+        if not checks or not news:
+            continue
+        # constructors the check itself reaches
+        inner = set()
+        for t in P.targets(checks[0]):
+            for g in P.reachable([t]):
+                for c in P.fns[g].calls:
+                    if is_cache_new(c):
+                        inner.add(strip_generics(c.resolved or c.path))
+        # the most specific one (the others are thin wrappers delegating to it)
+        for cn in news:
+            n_pairs += 1
+            used = strip_generics(cn.resolved or cn.path)
+            wrappers = {used}
+            for t in P.targets(cn):
+                for c in P.fns[t].calls:
+                    if is_cache_new(c):
+                        wrappers.add(strip_generics(c.resolved or c.path))
+            if not (wrappers & inner):
+                r4.bad(V(r4.id, fid, "different-constructor:%s" % short_path(used), "the saved record is built by %s, the check compares against %s" % (short_path(used), sorted(short_path(x) for x in inner)), cn.file, cn.line))
+                continue
+            bad = []
+            for what in ("commands", "structs", "events", "config"):
+                a = arg_by_type(checks[0], ARG_TYPES[what])
+                b = arg_by_type(cn, ARG_TYPES[what])
+                if a is None and b is None:
+                    continue
+                if a is None or b is None:
+                    bad.append("%s:%s" % (what, "missing-in-record" if b is None else "missing-in-check"))
+                    continue
+                ta = f.describe_origin(f.origin(a), short=False, deep=3)
+                tb = f.describe_origin(f.origin(b), short=False, deep=3)
+                if re.sub(r"\.deref|deref\(|\)", "", ta) != re.sub(r"\.deref|deref\(|\)", "", tb):
+                    bad.append("%s:differs" % what)
+            if bad:
+                r4.bad(V(r4.id, fid, "record-inputs:%s" % ",".join(bad), "the saved record and the cache check do not receive the same values (%s)" % ", ".join(bad), cn.file, cn.line))
+            else:
+                r4.ok("%s: record built by %s from the values the check receives" % (short_path(fid), short_path(used)))
+    r4.require_floor(2, "check/record pairs")
+    rules.append(r4)
+
     return finish(
         PROP, ctx, rules,
         "UNORD over the digest functions and the discovery path, serde-carrier type inspection, cache-hit control regions "
